@@ -564,6 +564,10 @@ class rrule(rrulebase):
 
             bymonthday = set(bymonthday)            # Ensure it's unique
 
+            if 0 in bymonthday:
+                raise ValueError("bymonthday must be between 1 and 31 "
+                                 "or between -31 and -1.")
+
             self._bymonthday = tuple(sorted(x for x in bymonthday if x > 0))
             self._bynmonthday = tuple(sorted(x for x in bymonthday if x < 0))
 
